@@ -67,23 +67,11 @@ FUNCS = {
         ],
     ),
     # ------------------------------------------------------------------------------------------------
-    'bp.encoding.bundle:Bundle.check_all_crc': dict(
-        self='Pkt[Bundle]', returns='Set[Opt[Int]]', props=['C08'],
-        trusted=True, trusted_reason='contract assumed here; the CRC functions are the subject of C08',
-        modifies=[],
-        ensures=[('fails_iff_some_crc_bad', 'is_empty_set(result) == crc_all_valid(self)')],
-    ),
-    'bp.agent:Agent._finish_bundle': dict(
-        self=AG, params={'ctr': CTR}, props=['C19'],
-        trusted=True, trusted_reason='contract assumed here; status reporting is the subject of C19',
-        modifies=['ghost.finished'],
-        ensures=[('recorded', 'ghost.finished == old(ghost.finished) + [ctr]')],
-    ),
     'bp.agent:Agent.recv_bundle': dict(
         self=AG, params={'ctr': CTR}, props=['C10', 'C08'], handler=True,
         requires=[('has_primary', 'ctr.bundle.primary is not None and unwrap(ctr.bundle.primary).bundle_flags >= 0', [])],
         modifies=['Agent._seen_bundle_ident', 'Agent._fwd_queue', 'Ctr.actions', 'Ctr.status_reason', 'Ctr.route', 'Ctr.sender',
-                  'ghost.finished'],
+                  'ghost.finished', 'ghost.sched_send', 'ghost.consumed', 'ghost.step_failed'],
         loops={0: dict(invariant=[
             ('agent_state_kept', 'self._seen_bundle_ident == set_add(old(self._seen_bundle_ident), ident_of(ctr)) and '
                                  'self._fwd_queue == old(self._fwd_queue) and ghost.finished == old(ghost.finished)'),
@@ -112,6 +100,10 @@ FUNCS = {
             ('forward_only_if_decided',
              'self._fwd_queue == old(self._fwd_queue) or (self._fwd_queue == old(self._fwd_queue) + [ctr] and '
              'contains(ctr.actions, "forward") and not contains(ctr.actions, "delete"))', ['C10']),
+            # C19: a bundle that is deleted here is not also reported as forwarded (the routing decision is withdrawn)
+            ('deleted_not_claimed_forwarded',
+             'implies(not (ghost.finished == old(ghost.finished)) and contains(ctr.actions, "delete"), '
+             'not contains(ctr.actions, "forward"))', ['C19']),
             ('finished_at_most_once', 'ghost.finished == old(ghost.finished) or ghost.finished == old(ghost.finished) + [ctr]',
              ['C10', 'C19']),
         ],
